@@ -385,20 +385,60 @@ async fn run_table(ti: usize, t: &Table, paths: &[String], recheck: bool, want_s
         }
         classes.insert(class);
         let verdict = judge(t, req, &exp, &got);
+        let mut history_dependent = false;
         if recheck || verdict.is_some() {
             // determinism: same case, same observation
             let again = real::call(&app, req).await;
             if again != got {
-                res.nondeterministic = Some(format!(
-                    "table {} request {}: {:?} then {:?}",
-                    t.show(),
-                    req.show(),
-                    got,
-                    again
-                ));
+                // either the real application is not deterministic, or what it answers depends
+                // on the requests this instance served before: a fresh instance decides
+                let fresh_app = real::init(t).await;
+                let fresh = real::call(&fresh_app, req).await;
+                let fresh2 = real::call(&real::init(t).await, req).await;
+                if fresh != fresh2 {
+                    res.nondeterministic = Some(format!(
+                        "table {} request {}: {:?} then {:?} (fresh instances: {:?} / {:?})",
+                        t.show(),
+                        req.show(),
+                        got,
+                        again,
+                        fresh,
+                        fresh2
+                    ));
+                } else {
+                    history_dependent = true;
+                    let odd = if got != fresh { &got } else { &again };
+                    let field = diff_field(odd, &fresh);
+                    let history: Vec<&Req> = reqs[..=ri].iter().collect();
+                    res.violating_cases += 1;
+                    let weight = (size.min(0xffff) << 48) | ((ri as u64) & 0xffff);
+                    let key = ("e".to_string(), format!("history-dependent:{field}"));
+                    let v = Violation {
+                        property: PROP.into(),
+                        clause: key.0.clone(),
+                        signature: key.1.clone(),
+                        what: format!(
+                            "table {} request {}: as request #{ri} (or its immediate repetition) on an instance that had served the earlier requests of the enumeration it is observed as {}, on a fresh instance as {} — routing / data resolution must be determined by the request and the table alone",
+                            t.show(),
+                            req.show(),
+                            show_outcome(odd),
+                            show_outcome(&fresh)
+                        ),
+                        replay: json!({ "table": t, "request": req, "history": history, "table_shown": t.show() }),
+                        weight,
+                    };
+                    match res.violations.get(&key) {
+                        Some(old) if old.weight <= weight => {}
+                        _ => {
+                            res.violations.insert(key, v);
+                        }
+                    }
+                }
             }
         }
-        if let Some((clause, signature, what)) = verdict {
+        // (a verdict on an observation that depends on the instance's history is reported as such
+        // above, with the history in its replay file)
+        if let Some((clause, signature, what)) = verdict.filter(|_| !history_dependent) {
             res.violating_cases += 1;
             let weight = (size.min(0xffff) << 48) | ((req.path.len() as u64).min(0xff) << 40) | ((ti as u64 & 0xff_ffff) << 16) | (ri as u64 & 0xffff);
             let v = Violation {
@@ -422,6 +462,58 @@ async fn run_table(ti: usize, t: &Table, paths: &[String], recheck: bool, want_s
     res
 }
 
+/// Which observed component differs (signature of a history-dependent observation).
+fn diff_field(a: &Outcome, b: &Outcome) -> String {
+    match (a, b) {
+        (Outcome::Handler(x), Outcome::Handler(y)) => {
+            let mut f = vec![];
+            if x.tag != y.tag {
+                f.push("handler");
+            }
+            if x.match_info != y.match_info || x.path_vec != y.path_vec || x.path_tuple != y.path_tuple {
+                f.push("params");
+            }
+            if x.marker != y.marker {
+                f.push("app-data");
+            }
+            if f.is_empty() {
+                f.push("other");
+            }
+            f.join("+")
+        }
+        _ => format!("{}-vs-{}", kind_of(a), kind_of(b)),
+    }
+}
+
+/// Replay of a history-dependent finding: the recorded requests in order on one instance, the
+/// last one twice, against the same request on a fresh instance.
+fn replay_history(table: &Table, req: &Req, history: &[Req]) -> i32 {
+    let (last, again, fresh) = actix_rt::System::new().block_on(async {
+        let app = real::init(table).await;
+        let mut last = None;
+        for r in history {
+            last = Some(real::call(&app, r).await);
+        }
+        let again = real::call(&app, req).await;
+        let fresh = real::call(&real::init(table).await, req).await;
+        (last, again, fresh)
+    });
+    println!("after {} earlier requests: {}", history.len().saturating_sub(1), last.as_ref().map(show_outcome).unwrap_or_default());
+    println!("repeated:               {}", show_outcome(&again));
+    println!("on a fresh instance:    {}", show_outcome(&fresh));
+    let odd = [last.clone(), Some(again.clone())].into_iter().flatten().find(|o| *o != fresh);
+    match odd {
+        Some(o) => {
+            println!("STILL FAILS clause=e signature=history-dependent:{}", diff_field(&o, &fresh));
+            1
+        }
+        None => {
+            println!("passes");
+            0
+        }
+    }
+}
+
 fn replay(file: &str) -> i32 {
     let v = read_replay(file);
     let body = v.get("replay").cloned().unwrap_or(v.clone());
@@ -438,6 +530,13 @@ fn replay(file: &str) -> i32 {
     }
     println!("table:    {}", table.show());
     println!("request:  {}", req.show());
+    if let Some(h) = body.get("history").filter(|h| h.is_array()) {
+        let history: Vec<Req> = match serde_json::from_value(h.clone()) {
+            Ok(x) => x,
+            Err(e) => machinery(&format!("replay file has a malformed history: {e}")),
+        };
+        return replay_history(&table, &req, &history);
+    }
     println!("routing path (after re-quoting): {}", refr::routing_path(&req.path));
     let exp = refr::route(&table, &req);
     let (got, again) = actix_rt::System::new().block_on(async {
